@@ -84,6 +84,89 @@ leaf!(V, Vec<u8>, |v| vec![v as u8; (v % 5) as usize + 1], |i| i.first().map(|b|
 leaf!(O, Option<u32>, |v| if v % 2 == 1 { Some(v) } else { None }, |i| Some(i.unwrap_or(0)), |v| if v % 2 == 1 { 4 } else { 0 });
 leaf!(Z, (), |_| (), |_| Some(0), |_| 0);
 
+leaf!(R, Result<u32, String>, |v| if v % 2 == 0 { Ok(v) } else { Err(strv(v)) }, |i| match i { Ok(x) => Some(*x), Err(s) => s.parse().ok() }, |v| if v % 2 == 0 { 4 } else { 7 });
+leaf!(BX, Box<u32>, |v| Box::new(v), |i| Some(**i), |_| 4);
+leaf!(TUP, (u32, String, u8), |v| (v, strv(v), v as u8), |i| (i.1.parse::<u32>().ok() == Some(i.0)).then_some(i.0), |_| 4 + 7 + 1);
+
+/// derived tuple struct with three fields
+#[derive(Debug, Clone, MessageBody)]
+struct T3(A, D, V);
+impl Tracked for T3 {
+    fn mk(v: u32) -> Self {
+        T3(A::mk(v), D::mk(v), V::mk(v))
+    }
+    fn val(&self) -> Option<u32> {
+        let v = self.0.val()?;
+        (self.1.val()? == v && self.2.val()? == u32::from(v as u8)).then_some(v)
+    }
+    fn exp_len(v: u32) -> usize {
+        4 + 7 + V::exp_len(v)
+    }
+    fn leaves(_: u32) -> isize {
+        3
+    }
+}
+
+/// derived generic struct
+#[derive(Debug, Clone, MessageBody)]
+struct Gn<T: MessageBody> {
+    x: T,
+    y: A,
+}
+impl Tracked for Gn<D> {
+    fn mk(v: u32) -> Self {
+        Gn { x: D::mk(v), y: A::mk(v) }
+    }
+    fn val(&self) -> Option<u32> {
+        let v = self.y.val()?;
+        (self.x.val()? == v).then_some(v)
+    }
+    fn exp_len(_: u32) -> usize {
+        7 + 4
+    }
+    fn leaves(_: u32) -> isize {
+        2
+    }
+}
+
+/// derived enum with four variants (the last one carries three fields)
+#[derive(Debug, Clone, MessageBody)]
+enum E4 {
+    U,
+    T(A),
+    N { a: A, d: D },
+    Last(A, D, V),
+}
+impl Tracked for E4 {
+    fn mk(v: u32) -> Self {
+        match v % 4 {
+            0 => E4::U,
+            1 => E4::T(A::mk(v)),
+            2 => E4::N { a: A::mk(v), d: D::mk(v) },
+            _ => E4::Last(A::mk(v), D::mk(v), V::mk(v)),
+        }
+    }
+    fn val(&self) -> Option<u32> {
+        match self {
+            E4::U => Some(0),
+            E4::T(a) => a.val(),
+            E4::N { a, d } => (a.val()? == d.val()?).then(|| a.0),
+            E4::Last(a, d, v) => (a.val()? == d.val()? && v.val()? == u32::from(a.0 as u8)).then(|| a.0),
+        }
+    }
+    fn exp_len(v: u32) -> usize {
+        match v % 4 {
+            0 => 0,
+            1 => 4,
+            2 => 4 + 7,
+            _ => 4 + 7 + V::exp_len(v),
+        }
+    }
+    fn leaves(v: u32) -> isize {
+        (v % 4) as isize
+    }
+}
+
 /// layout twin of A: a derived newtype
 #[derive(Debug, Clone, MessageBody)]
 struct W(A);
@@ -268,6 +351,12 @@ fn types() -> Vec<TyOps> {
         ops_clonable::<E>("E derived enum", |v| if v % 3 == 0 { 0 } else { v }),
         ops_clonable::<NN>("NN nested derived", |v| v),
         ops_nc(),
+        ops_clonable::<R>("R(Result<u32,String>)", |v| v),
+        ops_clonable::<BX>("BX(Box<u32>)", |v| v),
+        ops_clonable::<TUP>("TUP((u32,String,u8))", |v| v),
+        ops_clonable::<T3>("T3 derived tuple struct", |v| v),
+        ops_clonable::<Gn<D>>("Gn<D> derived generic struct", |v| v),
+        ops_clonable::<E4>("E4 derived enum, 4 variants", |v| if v % 4 == 0 { 0 } else { v }),
     ]
 }
 
@@ -281,9 +370,11 @@ enum Op {
     DropOne,
 }
 
-fn all_ops(nt: usize) -> Vec<Op> {
+const CORE: [usize; 9] = [0, 1, 3, 4, 5, 6, 8, 10, 12];
+
+fn all_ops(types: &[usize]) -> Vec<Op> {
     let mut ops = vec![];
-    for t in 0..nt {
+    for &t in types {
         ops.push(Op::Set(t));
         ops.push(Op::Cast(t));
         ops.push(Op::Content(t));
@@ -494,11 +585,12 @@ impl Property for C16 {
     }
     fn rule(&self, tier: Tier) -> String {
         format!(
-            "every history of exactly {} operations (every shorter history is a checked prefix) over a stack of messages, ops = {{set_content(T), try_cast<T>, try_content<T>, can_cast<T> for each of 13 body types, try_clone, drop}} = 54 ops; \
-             types: u32 / i32 / f32 / [u8;4] / derived newtype (layout twins), String, Vec<u8>, Option<u32>, (), derived struct, derived enum (unit/tuple/named variants), nested derived struct, a non-Clone type; \
+            "every history of exactly {} operations over all 19 body types (78 ops) and of exactly {} operations over 9 core types (38 ops) (every shorter history is a checked prefix), on a stack of messages, ops = {{set_content(T), try_cast<T>, try_content<T>, can_cast<T> per type, try_clone, drop}}; \
+             types: u32 / i32 / f32 / [u8;4] / derived newtype (layout twins), String, Vec<u8>, Option<u32>, (), derived struct, derived enum (unit/tuple/named variants), nested derived struct, a non-Clone type, Result, Box, tuple, derived tuple struct with 3 fields, derived generic struct, derived enum with 4 variants; \
              oracle: typed-value model (cast/borrow succeeds iff same type and yields the stored value; failure returns the message intact), live-object counter after every op and after dropping everything, \
              length() == 64 + independently computed byte length; plus one 2-module simulation per type checking arrival time == length*8/bitrate; \
              non-trivial = history containing a failed cast between layout twins, a cast after a clone, or a refused clone",
+            tier.pick(4, 5),
             tier.pick(5, 6)
         )
     }
@@ -513,8 +605,9 @@ impl Property for C16 {
     }
     fn explore(&self, ctx: &mut Ctx) {
         let tys = types();
-        let ops = all_ops(tys.len());
-        let depth = ctx.tier.pick(5, 6);
+        let everything: Vec<usize> = (0..tys.len()).collect();
+        // (type subset, depth): all types at the smaller depth, the core types one level deeper
+        let plans: Vec<(Vec<usize>, usize)> = vec![(everything, ctx.tier.pick(4, 5)), (CORE.to_vec(), ctx.tier.pick(5, 6))];
         if ctx.is_first_shard() {
             for t in 0..tys.len() {
                 ctx.out.evaluations += 1;
@@ -524,8 +617,10 @@ impl Property for C16 {
                 }
             }
         }
+        for (subset, depth) in plans {
+        let ops = all_ops(&subset);
         let mut idx = vec![0usize; depth];
-        loop {
+        'hist: loop {
             // shard on the first two ops
             if ctx.mine_key((idx[0] * ops.len() + idx[1]) as u64) {
                 let hist: Vec<Op> = idx.iter().map(|&i| ops[i]).collect();
@@ -560,7 +655,7 @@ impl Property for C16 {
             let mut i = depth;
             loop {
                 if i == 0 {
-                    return;
+                    break 'hist;
                 }
                 i -= 1;
                 idx[i] += 1;
@@ -569,6 +664,7 @@ impl Property for C16 {
                 }
                 idx[i] = 0;
             }
+        }
         }
     }
     fn replay(&self, case: &Value) -> Result<(), String> {
